@@ -11,6 +11,7 @@ import Gleece.Driver.IRHandler
 import Gleece.Driver.ReduceCheck
 import Gleece.Driver.Cfg
 import Gleece.Driver.Rig
+import Gleece.Driver.Cli
 open Lean Gleece.Driver
 
 def handlers : List (String × Handler) := [
@@ -20,7 +21,8 @@ def handlers : List (String × Handler) := [
   ("ir", irHandler),
   ("proj", projHandler3),
   ("cfg", cfgHandler),
-  ("rig", rigHandler)
+  ("rig", rigHandler),
+  ("cli", cliHandler)
 ]
 
 def processLine (prop : String) (line : String) (implLine : Option String) : Json :=
